@@ -260,6 +260,10 @@ def run_world(name, repo="/repo", tier="quick", seed=0, timeout=600):
             obligations.append(dict(id=ob, fn=f["id"], tags=f["clause_tags"].get(lab, f["tags"]), status="discharged"))
         obligations.append(dict(id=f"{f['id']}#safety", fn=f["id"], tags=f["safety_tags"], status="discharged",
                                 note="no overflow / shift / index / unreachable-panic / callee-precondition failure in the body; trait-level postconditions"))
+    template_failed = any(u.get("fn") is None for u in all_und)
+    for lm in meta.get("lemmas", []):
+        obligations.append(dict(id=f"lemma.{lm['id']}", fn=None, tags=lm["tags"], status="undecided" if template_failed else "discharged",
+                                note="lemma over the contracts (template proof fn)"))
     by_id = {o["id"]: o for o in obligations}
     violations = []
     for ob, c in all_viol.items():
